@@ -367,7 +367,7 @@ def sym(code, nan_one=True, with_lines=True, _memo=None):
     }
 
 
-def sym_diff(a, b, path="", out=None, limit=20, flag_mask=0):
+def sym_diff(a, b, path="", out=None, limit=20, flag_mask=0, opcode_unit_lines=True):
     """Differences between two R-SYM readings (ignoring flags in flag_mask)."""
     if out is None:
         out = []
@@ -389,13 +389,13 @@ def sym_diff(a, b, path="", out=None, limit=20, flag_mask=0):
             continue
         ox, oy = x[1], y[1]
         if ox[0] == "code" and oy[0] == "code":
-            sym_diff(ox[1], oy[1], "%s/%s" % (path, ox[1]["name"]), out, limit, flag_mask)
+            sym_diff(ox[1], oy[1], "%s/%s" % (path, ox[1]["name"]), out, limit, flag_mask, opcode_unit_lines)
         elif ox != oy:
             out.append((path, "operand", "#%d %s %s != %s" % (i, x[0], _short(ox), _short(oy))))
         if len(x) > 2:
             if x[2] != y[2]:
                 out.append((path, "line_first_unit", "#%d %s %r != %r" % (i, x[0], x[2], y[2])))
-            elif x[3] != y[3]:
+            elif x[3] != y[3] and opcode_unit_lines:
                 out.append((path, "line_opcode_unit", "#%d %s %r != %r" % (i, x[0], x[3], y[3])))
     return out
 
